@@ -32,6 +32,11 @@ Selected(s, x) ==
   \/ (x.i > 0 /\ x.t.k # "err" /\ x.t.j >= Len(s))
   \/ (x.i > 0 /\ x.t.k = "err" /\ x.t.j >= Len(s) - 1)
 
+(* A two-character beginning after which no text of up to 5 characters starts with [-] digit (NumLex!Prefix gives 0):  *)
+(* no length-5 extension can be Selected, so quick does not generate them.  (+ is no sign; after - only layout or a     *)
+(* digit may follow; a quoted sign needs the three characters '-'.)                                                     *)
+Dead(p) == ~(Digit(p[1]) \/ (p[1] = 45 /\ (Digit(p[2]) \/ p[2] = 32)) \/ (p[1] = 39 /\ p[2] = 45))
+
 -----------------------------------------------------------------------------
 (* catalogue of long or special literals (text; entries with control or non-ASCII characters as codes) *)
 CatText == <<
@@ -127,9 +132,11 @@ Fracs == {BZero, One, Two, P(51), Sub(P(52), One), Sub(P(52), Two), Add(P(51), O
           [neg |-> FALSE, m |-> DecRun(Codes("2702159776422298"), 1, <<>>)[1]],     \* 0x999999999999A (0.1, 0.2, 0.4 ...)
           [neg |-> FALSE, m |-> DecRun(Codes("1501199875790165"), 1, <<>>)[1]]}     \* 0x5555555555555
 (* -0.0 is not a value of Scryer's floats (see NumLex!TokValue) and is left out *)
-BoundaryBits == {Add(Add(Mul(FromInt(be), P52), f), sg) : be \in BiasedExps, f \in Fracs, sg \in {BZero, SignBit}} \ {SignBit}
+NegExps == IF Tier = "quick" THEN {0, 1023} ELSE BiasedExps      \* the sign is independent of the digits
+BoundaryBits == ({Add(Mul(FromInt(be), P52), f) : be \in BiasedExps, f \in Fracs}
+                 \cup {Add(Add(Mul(FromInt(be), P52), f), SignBit) : be \in NegExps, f \in Fracs}) \ {SignBit}
 (* the doubles nearest to powers of ten (shortest decimal output has one digit) *)
-TenExps == IF Tier = "quick" THEN {k \in -323..308 : k % 9 = 0 \/ k \in {-323, -308, -307, -5, -4, -3, -1, 0, 1, 14, 15, 16, 17, 21, 22, 23, 308}}
+TenExps == IF Tier = "quick" THEN {k \in -323..308 : k % 13 = 0 \/ k \in {-323, -308, -307, -5, -4, -3, -1, 0, 1, 14, 15, 16, 17, 21, 22, 23, 308}}
            ELSE -323..308
 
 NG == 16
@@ -156,7 +163,8 @@ Next ==
   /\ CASE kind = "lex" /\ src = "enum" ->
             /\ n' = BZero
             /\ IF s = <<>> THEN s' \in {<<a>> : a \in Starts}
-               ELSE s' \in {s \o t : t \in Tails(MaxLen - 2)} /\ Selected(s', Lex(s'))
+               ELSE s' \in {s \o t : t \in Tails(IF Tier = "quick" /\ Dead(s) THEN MaxLen - 3 ELSE MaxLen - 2)}
+                    /\ Selected(s', Lex(s'))
        [] kind = "lex" /\ src = "cat" -> n' = BZero /\ \E i \in Idx(Len(Cat)) : s' = Cat[i]
        [] kind = "lex" /\ src = "rand" -> n' = BZero /\ \E i \in Idx(Len(Extra)) : Extra[i].k = "lex" /\ s' = Extra[i].s
        [] kind = "int" -> s' = <<>> /\ n' \in GroupOf(Ints, g)
